@@ -244,6 +244,28 @@ func (d *driver) startFilter(pod string) {
 	d.emitOp(oi, M{"ev": "StartFilter", "op": op.ID, "pod": pod, "uid": string(p.UID), "nodes": d.w.NodeOrder})
 }
 
+// startPreempt asks the preemption extender which of all nodes stay candidates for the pod (victims are irrelevant here).
+func (d *driver) startPreempt(pod string) {
+	p := d.w.TruthPod(pod)
+	plugin := d.w.Plugin
+	args := &schedulerapi.ExtenderPreemptionArgs{Pod: p, NodeNameToMetaVictims: map[string]*schedulerapi.MetaVictims{}}
+	for _, n := range d.w.NodeOrder {
+		args.NodeNameToMetaVictims[n] = &schedulerapi.MetaVictims{}
+	}
+	op, err := d.w.S.Start("preempt", func() M {
+		res := plugin.Preempt(args)
+		nodes := []string{}
+		for n := range res {
+			nodes = append(nodes, n)
+		}
+		sort.Strings(nodes)
+		return M{"nodes": nodes}
+	})
+	oi := d.register("preempt", pod, "", op, err)
+	oi.uid = string(p.UID)
+	d.emitOp(oi, M{"ev": "StartPreempt", "op": op.ID, "pod": pod, "uid": string(p.UID)})
+}
+
 func (d *driver) startBind(pod, node string) {
 	p := d.w.TruthPod(pod)
 	plugin := d.w.Plugin
@@ -834,6 +856,9 @@ func (d *driver) startAction() bool {
 		if exists && v.Node == "" && v.Phase == "Pending" && !d.liveOf("filter", name) && !d.liveOf("bind", name) {
 			if d.sc.Feat["cycle"] {
 				add(12, func() { d.filterThenBind(name) })
+			}
+			if d.sc.Feat["preempt"] && (v.Policy != 0 || v.Pool != "") && !d.liveOf("preempt", name) {
+				add(2, func() { d.startPreempt(name) })
 			}
 			if nodes, ok := d.filtered[name]; ok && len(nodes) > 0 {
 				add(8, func() { d.startBind(name, nodes[d.rng.Intn(len(nodes))]) })
